@@ -48,10 +48,29 @@ func (self *BinaryConv) doNative(ctx context.Context, src []byte, desc *thrift.T
 
 	jp := rt.Mem2Str(src)
 	fsm.Init(0, unsafe.Pointer(desc))
+	start := len(*buf)
 
 exec:
 	ret = native.J2T_FSM(fsm, buf, &jp, self.flags)
 	if ret != 0 {
+		if getErrCode(ret) == types.ERR_OOM_BUF {
+			// The native FSM can't be resumed reliably after it ran out of output space: part of its
+			// state lives in native locals (e.g. a null value whose field header is still to be unwound)
+			// and is lost on re-entry, which made the output depend on the buffer's capacity.
+			// So grow the buffer and convert again from the beginning.
+			if _, e := self.handleError(ctx, fsm, buf, src, req, ret, top); e != nil {
+				err = e
+				goto final
+			}
+			*buf = (*buf)[:start]
+			fsm.SP = 0
+			fsm.ReqsCache = fsm.ReqsCache[:0]
+			fsm.KeyCache = fsm.KeyCache[:0]
+			fsm.FieldCache = fsm.FieldCache[:0]
+			fsm.Init(0, unsafe.Pointer(desc))
+			jp = rt.Mem2Str(src)
+			goto exec
+		}
 		cont, e := self.handleError(ctx, fsm, buf, src, req, ret, top)
 		if cont && e == nil {
 			goto exec
